@@ -169,24 +169,13 @@ func (g *pureGen) intLeaf(depth int) *aspgen.Val {
 	return g.intLit()
 }
 
-// safe makes the chain one interpretOps groups like CPython: otherwise it is nested to the left with parentheses
-// (and loses its prefix operators)
+// safe cuts the chain down to its longest prefix that interpretOps groups like CPython
 func safe(first *aspgen.Val, ops []aspgen.Op) *aspgen.Expr {
-	if aspgen.ChainClass(ops) == "" {
-		return &aspgen.Expr{Val: first, Ops: ops}
+	k := len(ops)
+	for k > 0 && aspgen.ChainClass(ops[:k]) != "" {
+		k--
 	}
-	cur := &aspgen.Expr{Val: first}
-	for _, o := range ops {
-		if o.Val == nil {
-			continue
-		}
-		if len(cur.Ops) == 0 {
-			cur = &aspgen.Expr{Val: cur.Val, Ops: []aspgen.Op{o}}
-		} else {
-			cur = &aspgen.Expr{Val: aspgen.Paren(cur), Ops: []aspgen.Op{o}}
-		}
-	}
-	return cur
+	return &aspgen.Expr{Val: first, Ops: ops[:k]}
 }
 
 func (g *pureGen) intExpr(depth int) *aspgen.Expr {
@@ -227,7 +216,16 @@ func (g *pureGen) strExpr() *aspgen.Expr {
 func (g *pureGen) listLit() *aspgen.Val {
 	es := []*aspgen.Expr{}
 	for k := g.r.Range(0, 4); k > 0; k-- {
-		if g.r.Chance(1, 6) {
+		es = append(es, g.intExpr(1))
+	}
+	return aspgen.List(es...)
+}
+
+// a list of strings and ints: only ever assigned, compared for truth and concatenated
+func (g *pureGen) mixedLit() *aspgen.Val {
+	es := []*aspgen.Expr{}
+	for k := g.r.Range(1, 3); k > 0; k-- {
+		if g.r.Bool() {
 			es = append(es, g.strExpr())
 		} else {
 			es = append(es, g.intExpr(1))
@@ -261,6 +259,9 @@ func (g *pureGen) truthLeaf(depth int) *aspgen.Val {
 			return aspgen.Ident(lib.Pick(r, g.lists))
 		}
 	case 1:
+		if r.Bool() {
+			return g.mixedLit()
+		}
 		return g.listLit()
 	case 2:
 		return g.strLeaf()
@@ -332,11 +333,14 @@ func (g *pureGen) assign(inloop bool) *aspgen.Stmt {
 	return aspgen.Assign(g.fresh("i"), e)
 }
 
+// block: the names defined inside a nested block are not used after it (it may not run)
 func (g *pureGen) block(n int, depth int, inloop bool) []*aspgen.Stmt {
+	si, ss, sl := len(g.ints), len(g.strs), len(g.lists)
 	out := []*aspgen.Stmt{}
 	for ; n > 0; n-- {
 		out = append(out, g.stmt(depth, inloop))
 	}
+	g.ints, g.strs, g.lists = g.ints[:si], g.strs[:ss], g.lists[:sl]
 	return out
 }
 
@@ -364,8 +368,10 @@ func (g *pureGen) stmt(depth int, inloop bool) *aspgen.Stmt {
 				}
 				it = aspgen.E(aspgen.List(es...))
 			}
+			si := len(g.ints)
 			x := g.fresh("i")
 			body := g.block(r.Range(1, 3), depth-1, true)
+			g.ints = g.ints[:si] // the loop variable is unbound after a loop over an empty list
 			return aspgen.For([]string{x}, it, body...)
 		}
 	}
@@ -382,8 +388,10 @@ func (g *pureGen) stmt(depth int, inloop bool) *aspgen.Stmt {
 func PureProgram(r *lib.Rng) aspgen.Prog {
 	g := &pureGen{r: r}
 	// a few variables first, so that the later statements have something to work on
-	g.out = append(g.out, aspgen.Assign(g.fresh("i"), g.intExpr(1)))
-	g.out = append(g.out, aspgen.Assign(g.fresh("l"), aspgen.E(g.listLit())))
+	e0 := g.intExpr(1)
+	g.out = append(g.out, aspgen.Assign(g.fresh("i"), e0))
+	l0 := aspgen.E(g.listLit())
+	g.out = append(g.out, aspgen.Assign(g.fresh("l"), l0))
 	for n := r.Range(2, 6); n > 0; n-- {
 		g.out = append(g.out, g.stmt(2, false))
 	}
